@@ -19,7 +19,7 @@ def canary(grp):
 
 def model(tier):
     cfg = core.workdir("mc_" + PROP) + "/MC_FromStr.cfg"
-    consts = dict(Size=1 if tier == "quick" else 2, Dedup=True)
+    consts = dict(Size=1 if tier == "quick" else 2, Dedup=True, Overlap=False)
     core.write_cfg(cfg, constants=consts, invariants=["RoundTrip", "ExpansionIsSpec"])
     res = core.tlc_mc("MC_FromStr.tla", cfg, "mc_" + PROP, workers=6, timeout=7200, xmx="12g")
     if res["coverage"].get("PushArms", 0) == 0:
